@@ -180,9 +180,11 @@ abbrev Attrs := List (Bytes × Bytes)
 
 inductive Ev where
   | start (name : Bytes) (attrs : Attrs)
+  /-- character data after entity unescaping; a CDATA section inside `<v>`/`<t>` is character data too
+      (`Event::CData`, appended like `Event::Text` since the D24 fix) and is presented to the model as `text` -/
   | text (s : Bytes)
   | stop (name : Bytes)
-  /-- comment, CDATA, processing instruction, declaration, doctype: every reading loop ignores them -/
+  /-- comment, processing instruction, declaration, doctype: every reading loop ignores them -/
   | other
   deriving Repr, DecidableEq, Inhabited
 
